@@ -264,82 +264,7 @@ def check_c04(ctx):
         ctx.ob('C04.O1', CLS + '._open_part_file',
                'the part file is created by os.open(self.part_path, flags, mode)', False,
                loc=C.enter.loc, detail='no os.open(self.part_path, ...) found on any path of __enter__')
-    # flags: every flags value reaching os.open on any path folds to a set with O_CREAT|O_EXCL
-    # and write access; self.open_flags is replaced by each value stored into it
-    stored = []          # (expr, node, method) stored into self.open_flags
-    for m in ci.members.values():
-        if isinstance(m, FuncInfo):
-            for n in ast.walk(m.node):
-                if isinstance(n, ast.Assign):
-                    for t in n.targets:
-                        if isinstance(t, ast.Attribute) and t.attr == 'open_flags':
-                            stored.append((n.value, n, m))
-                elif isinstance(n, ast.AugAssign) and isinstance(n.target, ast.Attribute) \
-                        and n.target.attr == 'open_flags':
-                    stored.append((None, n, m))
-
-    def alternatives(expr):
-        if isinstance(expr, ast.IfExp):
-            return alternatives(expr.body) + alternatives(expr.orelse)
-        if isinstance(expr, ast.BoolOp):
-            out = []
-            for x in expr.values:
-                out += alternatives(x)
-            return out
-        return [expr]
-    base_vals = []
-    for expr, node, m in stored:
-        if expr is None:
-            ctx.ob('C04.O1', m.fq, 'open flags are modified in place (cannot be folded)', False,
-                   loc='%s:%d' % (mod.relpath, node.lineno))
-            continue
-        for alt in alternatives(expr):
-            try:
-                base_vals.append((folder.fold(alt), txt(alt), node, m))
-            except Unknown as ex:
-                raise AnalysisError('cannot fold open flags %s: %s' % (txt(alt), ex))
-
-    def feval(e, base):
-        """Flag-set value of expression e with self.open_flags = base."""
-        if txt(e) == 'self.open_flags':
-            return base
-        if isinstance(e, ast.BinOp) and isinstance(e.op, ast.BitOr):
-            return Flags(feval(e.left, base) | feval(e.right, base))
-        if isinstance(e, ast.BinOp) and isinstance(e.op, ast.BitAnd) and isinstance(e.right, ast.UnaryOp) \
-                and isinstance(e.right.op, ast.Invert):
-            return Flags(feval(e.left, base) - feval(e.right.operand, base))
-        if isinstance(e, ast.BinOp) and isinstance(e.op, ast.BitXor):
-            return Flags(feval(e.left, base) ^ feval(e.right, base))
-        try:
-            v = folder.fold(e)
-        except Unknown as ex:
-            raise AnalysisError('cannot fold open flags %s: %s' % (txt(e), ex))
-        if not isinstance(v, Flags):
-            raise AnalysisError('open flags %s do not fold to a flag set' % txt(e))
-        return v
-    seen_flag_vals = {}
-    for p, evs in zip(C.enter_paths, C.enter_evs):
-        for e in evs:
-            if e.kind == 'CREATE':
-                v = e.extra
-                fl = C.w_enter.expand(v.args[1]) if len(v.args) > 1 else None
-                if fl is None:
-                    for kw in v.keywords:
-                        if kw.arg == 'flags':
-                            fl = C.w_enter.expand(kw.value)
-                seen_flag_vals.setdefault(txt(fl), (fl, e))
-    for ft, (fl, e) in sorted(seen_flag_vals.items()):
-        if fl is None:
-            ctx.ob('C04.O1', CLS + '._open_part_file', 'os.open is given explicit flags', False, loc=C.loc(e.op))
-            continue
-        uses_base = 'self.open_flags' in ft
-        for bval, btxt, bnode, bm in (base_vals if uses_base else [(None, '-', e.op.node, e.op.fn)]):
-            val = feval(fl, bval)
-            ok = {'O_CREAT', 'O_EXCL'} <= val and ('O_RDWR' in val or 'O_WRONLY' in val) and 'O_TRUNC' not in val
-            ctx.ob('C04.O1', CLS + '._open_part_file',
-                   'part file is created exclusively: flags `%s` (with self.open_flags = %s) include '
-                   'O_CREAT|O_EXCL and write access, no O_TRUNC' % (ft, btxt), ok, loc=C.loc(e.op),
-                   detail='folded to %r' % (val,))
+    check_exclusive_flags(ctx, C, 'C04.O1')
     # O2 co-location: every value stored into self.part_path, on every path of every method that stores it,
     # derives from the destination (locals copy-propagated, fields read through the path's field environment)
     n_pp = 0
@@ -503,6 +428,100 @@ def check_c04(ctx):
             ctx.ob('C04.T17', CLS + '.__init__', 'option %s defaults to %r' % (opt, want), d is want or d == want and type(d) is type(want),
                    loc=loc_of(init, c), detail='default %r' % (d,))
     return C
+
+
+def check_exclusive_flags(ctx, C, rule):
+    """Every flags value reaching os.open(part_path, ...) on any path of __enter__ folds to a set with O_CREAT|O_EXCL and write
+    access and without O_TRUNC, whatever was stored into self.open_flags (values stored relative to the field itself, e.g.
+    `self.open_flags = self.open_flags & ~X`, are evaluated on every earlier value)."""
+    ci = C.ci
+    mod = ctx.program.module(MOD)
+    folder = Folder(mod)
+    # flags: every flags value reaching os.open on any path folds to a set with O_CREAT|O_EXCL
+    # and write access; self.open_flags is replaced by each value stored into it
+    stored = []          # (expr, node, method) stored into self.open_flags
+    for m in ci.members.values():
+        if isinstance(m, FuncInfo):
+            for n in ast.walk(m.node):
+                if isinstance(n, ast.Assign):
+                    for t in n.targets:
+                        if isinstance(t, ast.Attribute) and t.attr == 'open_flags':
+                            stored.append((n.value, n, m))
+                elif isinstance(n, ast.AugAssign) and isinstance(n.target, ast.Attribute) \
+                        and n.target.attr == 'open_flags':
+                    stored.append((None, n, m))
+
+    def alternatives(expr):
+        if isinstance(expr, ast.IfExp):
+            return alternatives(expr.body) + alternatives(expr.orelse)
+        if isinstance(expr, ast.BoolOp):
+            out = []
+            for x in expr.values:
+                out += alternatives(x)
+            return out
+        return [expr]
+    base_vals = []
+    relative = []
+    for expr, node, m in stored:
+        if expr is None:
+            ctx.ob(rule, m.fq, 'open flags are modified in place (cannot be folded)', False,
+                   loc='%s:%d' % (mod.relpath, node.lineno))
+            continue
+        for alt in alternatives(expr):
+            if any(isinstance(x, ast.Attribute) and x.attr == 'open_flags' for x in ast.walk(alt)):
+                relative.append((alt, node, m))
+                continue
+            try:
+                base_vals.append((folder.fold(alt), txt(alt), node, m))
+            except Unknown as ex:
+                raise AnalysisError('cannot fold open flags %s: %s' % (txt(alt), ex))
+
+    def feval(e, base):
+        """Flag-set value of expression e with self.open_flags = base."""
+        if txt(e) == 'self.open_flags':
+            return base
+        if isinstance(e, ast.BinOp) and isinstance(e.op, ast.BitOr):
+            return Flags(feval(e.left, base) | feval(e.right, base))
+        if isinstance(e, ast.BinOp) and isinstance(e.op, ast.BitAnd) and isinstance(e.right, ast.UnaryOp) \
+                and isinstance(e.right.op, ast.Invert):
+            return Flags(feval(e.left, base) - feval(e.right.operand, base))
+        if isinstance(e, ast.BinOp) and isinstance(e.op, ast.BitXor):
+            return Flags(feval(e.left, base) ^ feval(e.right, base))
+        try:
+            v = folder.fold(e)
+        except Unknown as ex:
+            raise AnalysisError('cannot fold open flags %s: %s' % (txt(e), ex))
+        if not isinstance(v, Flags):
+            raise AnalysisError('open flags %s do not fold to a flag set' % txt(e))
+        return v
+    # a value stored relative to the field (`self.open_flags = f(self.open_flags)`) may follow any absolutely stored value
+    for alt, node, m in relative:
+        for bval, btxt, _, _ in list(base_vals):
+            if '<-' not in btxt:
+                base_vals.append((feval(alt, bval), '%s <- %s' % (txt(alt), btxt), node, m))
+    seen_flag_vals = {}
+    for p, evs in zip(C.enter_paths, C.enter_evs):
+        for e in evs:
+            if e.kind == 'CREATE':
+                v = e.extra
+                fl = C.w_enter.expand(v.args[1]) if len(v.args) > 1 else None
+                if fl is None:
+                    for kw in v.keywords:
+                        if kw.arg == 'flags':
+                            fl = C.w_enter.expand(kw.value)
+                seen_flag_vals.setdefault(txt(fl), (fl, e))
+    for ft, (fl, e) in sorted(seen_flag_vals.items()):
+        if fl is None:
+            ctx.ob(rule, CLS + '._open_part_file', 'os.open is given explicit flags', False, loc=C.loc(e.op))
+            continue
+        uses_base = 'self.open_flags' in ft
+        for bval, btxt, bnode, bm in (base_vals if uses_base else [(None, '-', e.op.node, e.op.fn)]):
+            val = feval(fl, bval)
+            ok = {'O_CREAT', 'O_EXCL'} <= val and ('O_RDWR' in val or 'O_WRONLY' in val) and 'O_TRUNC' not in val
+            ctx.ob(rule, CLS + '._open_part_file',
+                   'part file is created exclusively: flags `%s` (with self.open_flags = %s) include '
+                   'O_CREAT|O_EXCL and write access, no O_TRUNC' % (ft, btxt), ok, loc=C.loc(e.op),
+                   detail='folded to %r' % (val,))
 
 
 def loc_of(fn, node):
@@ -678,6 +697,12 @@ def check_c05(ctx):
         for e in refus:
             ctx.ob('C05.R3r', CLS + '.setup', 'refusal raises OSError before creating anything',
                    e.extra in ('OSError', 'FileExistsError', 'IOError'), loc=C.loc(e.op), detail='raises %s' % e.extra)
+    if not any(o.rule == 'C05.R4' for o in ctx.obs):
+        ctx.ob('C05.R4', CLS + '.setup', 'no pre-existing part file is ever removed before the exclusive create (a stale one makes the '
+               'create fail)', True, loc=C.enter.loc)
+    # a part file is never a reused inode (a stale one may be a hard link of the destination: truncating it destroys the
+    # destination before the body ran)
+    check_exclusive_flags(ctx, C, 'C05.R4x')
     check_foreign_part(ctx, C, 'C05.R4b')
     # R5 no-clobber publication ---------------------------------------------------
     for p, evs in zip(C.exit_paths, C.exit_evs):
